@@ -19,7 +19,7 @@ RULE = ("random combinator terms over FixStr, Dict, Spaces, DecInt, HexInt, IntS
         "order; one evaluation = one top-level round trip; distinct by (term, env, value); non-trivial when the text is non-empty")
 ASSUMPTIONS = ["'value the composition accepts' = generated structurally inside each combinator's domain (no silently dropped items)",
                "terms in which a DecInt can be followed by a decimal digit are not generated (no terminator exists)"]
-REQUIRED = ["c15.roundtrips", "c15.leaf_law_checked", "c15.term.Rooms", "c15.term.ValuedRooms", "c15.term.Grid", "c15.term.Seq", "c15.term.Tupl",
+REQUIRED = ["c15.roundtrips", "c15.history_checked", "c15.leaf_law_checked", "c15.term.Rooms", "c15.term.ValuedRooms", "c15.term.Grid", "c15.term.Seq", "c15.term.Tupl",
             "c15.term.OneOf", "c15.leaf.Spaces", "c15.leaf.HexInt", "c15.leaf.IntSpaces", "c15.leaf.MultiDigit", "c15.leaf.Dict", "c15.leaf.DecInt",
             "c15.single_row_or_column", "c15.rooms_unsorted_cells"]
 LEAVES = ("FixStr", "Dict", "Spaces", "DecInt", "HexInt", "IntSpaces", "MultiDigit")
@@ -73,6 +73,22 @@ def install(ctx):
     _state["ctx"] = ctx
 
 
+def scramble_in_place(v, rng):
+    """Edit a decoded value in place (lists only; tuples are rebuilt by their owners): overwrite leaves, reverse lists."""
+    if isinstance(v, list):
+        for i, x in enumerate(v):
+            if isinstance(x, (list, tuple)):
+                scramble_in_place(x, rng)
+            else:
+                v[i] = "junk" if not isinstance(x, int) or isinstance(x, bool) else x + 7
+        v.reverse()
+        if rng.random() < 0.3:
+            v.append("extra")
+    elif isinstance(v, tuple):
+        for x in v:
+            scramble_in_place(x, rng)
+
+
 def mech_of(term, env):
     tops = term[0]
     deg = "1xN" if env and (env[0] == 1 or env[1] == 1) else "HxW"
@@ -121,6 +137,23 @@ def roundtrip(ctx, term, env, value, c=None):
         ctx.violation(f"consumed-length{mech_tail}", f"deserializer consumed {raw[0]} of {len(text)} characters", dict(ctx.current_case, text=text))
         return
     a, b = K.canon_value(term, value), K.canon_value(term, back)
+    if a == b:
+        # history: a caller that edits a loaded problem in place must not influence later decodes of the same combinator object
+        scramble_in_place(back, ctx.rng)
+        try:
+            again = PS.deserialize_problem(c, text, height=env[0], width=env[1])
+            text2 = PS.serialize_problem(c, value, height=env[0], width=env[1])
+        except Exception as e:
+            ctx.violation(f"history:raises:{type(e).__name__}{mech_tail}", f"second use of the same combinator raised {e!r}", dict(ctx.current_case, text=text))
+            return
+        ctx.count("c15.history_checked")
+        if again is None or K.canon_value(term, again) != a:
+            ctx.violation(f"history:decode-after-caller-mutation:{term[0]}", "after the caller edited an earlier decoded value in place, decoding the same text "
+                          "with the same combinator gives a different value", dict(ctx.current_case, text=text, again=repr(again)[:400]))
+            return
+        if text2 != text:
+            ctx.violation(f"history:encode-not-repeatable:{term[0]}", f"serializing the same value twice gives {text!r} then {text2!r}", ctx.current_case)
+            return
     if a != b:
         sub = ""
         if term[0] == "ValuedRooms":
